@@ -66,6 +66,10 @@ CHECKS = {
    text="The harness writes legacy-format stores itself (version-2 single-file index behind its header, unversioned single-file primary, freelist pending or already applied; contents, freed records, bit sizes and chunk limits from 30 B - a chunk per record - to 1 GiB drawn per scenario). The upgrading open runs under strace; the completed upgrade and EVERY intermediate image (index chunking, freelist application, primary chunking, header writes, per-file remapping with its .tmp/.remapped protocol) is opened again by the real code. TLC decides: the open succeeds and the contents equal the legacy map exactly; then the store must behave as C01 through a continuation with GC cycles.",
    note="legacy files are produced by repackaging a store built with 1 GiB limits (same record encoding); corrupted legacy files (entries without primary data) are not generated in this revision, so the 'dropped rather than mis-pointed' clause is only exercised through freed records.",
    ref="DESIGN.md §3.11, §6 C10"),
+ "C17": dict(engine="life", technique="TLC model checking of Lifecycle.tla (stop handshakes) + park-and-close runs on a real started store at every background yield point + TLC trace validation of process observations (LifecycleTrace.tla)",
+   text="Lifecycle.tla models the stop handshakes of Close with the flusher and the outer/inner goroutines of both collectors (AllStopped, NoStepAfterClose, and RelocationFlushed - which the delivered Close order violated). For every yield point of the index-GC cycle, the primary-GC cycle (incl. relocation and freelist hand-over) and the commit, a real store started with 1 ms flusher and collectors has its OWN background goroutine parked there (global verif hook), Close is issued, the goroutine released; also 5 kinds of failing opens and open/work/close repetition. LifecycleTrace.tla judges the observations: Close returns (and not while a cycle is still running), no descriptor of the process on the store directory, no goroutine with a frame in the module 150 ms later, directory fingerprint (names, sizes, hashes, mtimes) unchanged after Close returned, reopen succeeds with the acknowledged contents even after the reopened store's collectors ran.",
+   note="timing-based parking: a scenario in which the point was not reached within 1.5 s still runs (unparked) and is counted as such in the evidence; goroutine attribution by stack frames; one scenario per harness process (global hook).",
+   ref="DESIGN.md §3.10, §6 C17"),
 }
 
 NOT_APPLICABLE = [
@@ -109,6 +113,7 @@ def main():
             {"name": "flushrate", "path": "harness/cmd/vrun/flushrate.go + harness/internal/sched + spec/FlushRate.tla + spec/FlushRateTrace.tla", "serves_properties": ["C12"], "kind_free_text": "TLC schedules replayed by a cooperative scheduler at yield points (build tag verif); TLC trace monitor"},
             {"name": "conc", "path": "harness/cmd/vrun/conc.go + harness/cmd/vrun/stress.go + harness/internal/sched + spec/StoreConc.tla + spec/StoreConcGC.tla + spec/LinTrace.tla + spec/RegTrace.tla", "serves_properties": ["C05", "C06"], "kind_free_text": "TLC schedules replayed by a cooperative scheduler; TLC linearizability / atomic-register monitors over recorded histories"},
             {"name": "crash", "path": "harness/cmd/vrun/crash.go + harness/cmd/vrun/legacy.go + harness/internal/straceimg + spec/Durable.tla + spec/CrashTrace.tla + tools/c03.py", "serves_properties": ["C03", "C09", "C10"], "kind_free_text": "strace-based crash-image enumeration of the real process (no hooks), real recovery on every image, TLC trace monitor"},
+            {"name": "life", "path": "harness/cmd/vrun/life.go + spec/Lifecycle.tla + spec/LifecycleTrace.tla + tools/c17.py", "serves_properties": ["C17"], "kind_free_text": "park-and-close on a real started store via the global verif hook; TLC monitor over descriptor / goroutine / directory observations"},
             {"name": "fcache", "path": "harness/cmd/vrun/fcache.go + spec/FileCache.tla + spec/FileCacheTrace.tla", "serves_properties": ["C14"], "kind_free_text": "TLC state-graph replay on real FileCache + TLC trace monitor"},
             {"name": "reclist", "path": "harness/cmd/vrun/reclist.go + spec/RecordList.tla + spec/RecordListTrace.tla", "serves_properties": ["C08"], "kind_free_text": "TLC state-graph replay on real index.Index + TLC trace monitor"},
         ],
